@@ -28,6 +28,9 @@ FAMILIES = {
     # the disk cache, with drop-and-recreate on the same directory
     "disk": dict(Kind="disk", Keys=2, OpKinds=["put", "put_ttl", "get", "contains", "remove", "clear", "tick", "restart"],
                  Sizes=[0, 3], ShortSizes=[2], LongSizes=[], MaxRestarts=2, MaxTicks=2),
+    # the disk cache built with its background cleanup task (new_with_background_tasks, cleanup every 3 ms)
+    "diskbg": dict(Kind="disk", Keys=2, OpKinds=["put", "put_ttl", "get", "remove", "tick"],
+                   Sizes=[3], ShortSizes=[2], LongSizes=[], MaxRestarts=0, MaxTicks=2),
 }
 DISK_MAXE = 100000      # far above any population: the disk cache is not expected to evict
 
@@ -73,6 +76,10 @@ def known_findings(ctx):
             ids.add(f["id"])
             if f["id"] not in have:
                 ctx.known.setdefault("findings", []).append(f)
+    # development aid (like VERIF_REPO): judge a scratch worktree that carries a proposed fix as if the finding were
+    # already recorded as fixed, e.g. VERIF_C10_KNOWN=F10b,F10d.  Registered commands never set it.
+    if "VERIF_C10_KNOWN" in os.environ and lib.REPO != "/repo":
+        ids = {x for x in os.environ["VERIF_C10_KNOWN"].split(",") if x}
     return sorted(ids)
 
 
@@ -121,7 +128,23 @@ def program_of(evs):
     return {"cfg": evs[0]["cfg"], "keys": evs[0]["keys"], "ops": ops}
 
 
+MARKS = {"put": '"op":"put"', "put_ttl": '"op":"put_ttl"', "get": '"op":"get"', "contains": '"op":"contains"',
+         "remove": '"op":"remove"', "clear": '"op":"clear"', "tick": '"op":"tick"', "restart": '"op":"restart"',
+         "probe": '"op":"probe"', "answer:hit": '"hit":true', "answer:miss": '"hit":false', "answer:true": '"b":true',
+         "answer:false": '"b":false', "kind:mem": '"kind":"mem"', "kind:disk": '"kind":"disk"'}
+
+
+def histogram(ctx, trace):
+    h = ctx.cov.setdefault("events_by_kind", {k: 0 for k in MARKS})
+    with open(trace) as f:
+        for line in f:
+            for k, m in MARKS.items():
+                if m in line:
+                    h[k] += 1
+
+
 def judge_and_classify(ctx, trace, source, kd):
+    histogram(ctx, trace)
     v = judge(ctx, trace, kd)
     ctx.stage("judge", source=source, events=v["events"], violations=v["nviol"], deviations=dict(v["devcount"]), wall_s=v["wall_s"])
     for fid, n in v["devcount"].items():
@@ -296,14 +319,16 @@ def run(ctx):
         plan = [("bounds", 3, dict(Policies=ALL_POLICIES, MaxE=[1, 2, 3], MaxB=[0, 1, 4])),
                 ("bounds", 4, dict(Policies=["lru", "lfu", "random"], MaxE=[2], MaxB=[0, 4])),
                 ("memttl", 4, dict(Policies=["lru", "ttl"], MaxE=[1, 2], DTtl=["none", "short"])),
-                ("disk", 4, dict(SubDirs=[True, False], DTtl=["none", "short"]))]
+                ("disk", 4, dict(SubDirs=[True, False], DTtl=["none", "short"])),
+                ("diskbg", 4, dict(Bg=[True]))]
         nrand, rlen = 300, 200
     else:
         plan = [("bounds", 4, dict(Policies=ALL_POLICIES, MaxE=[1, 2, 3], MaxB=[0, 1, 4])),
                 ("bounds", 5, dict(Policies=["lru", "fifo"], MaxE=[2, 3], MaxB=[4])),
                 ("memttl", 5, dict(Policies=["lru", "ttl"], MaxE=[1, 2], DTtl=["none", "short"])),
                 ("memttl", 6, dict(Policies=["lru"], MaxE=[2])),
-                ("disk", 5, dict(SubDirs=[True, False], DTtl=["none", "short"]))]
+                ("disk", 5, dict(SubDirs=[True, False], DTtl=["none", "short"])),
+                ("diskbg", 5, dict(Bg=[True]))]
         nrand, rlen = 3000, 300
     first = True
     for fam, depth, grid in plan:
@@ -326,6 +351,9 @@ def run(ctx):
     judge_and_classify(ctx, trace, f"random seed={ctx.seed}", kd)
     total += nrand
     distinct += dn
+    ctx.cov["actions_never_taken"] = sorted(k for k, n in ctx.cov.get("events_by_kind", {}).items() if n == 0)
+    if ctx.cov["actions_never_taken"]:
+        raise lib.ToolError(f"operations / answers never exercised on the real code: {ctx.cov['actions_never_taken']}")
     ctx.cov["traces_validated_against_impl"] = total
     ctx.cov["evaluations"] = total
     ctx.cov["distinct_nontrivial"] = distinct
